@@ -105,7 +105,7 @@ def options(cmdline_py):
             if isinstance(typ, str) and typ.startswith("name:"):
                 typ = typ[5:]
             out.append({"line": node.lineno, "flags": flags, "dest": dest, "type": typ or "",
-                        "default": repr(kw["default"]) if "default" in kw else "<none>", "action": kw.get("action", "") or "",
+                        "default": repr(kw["default"]) if "default" in kw else {"store_true": "False", "store_false": "True"}.get(kw.get("action"), "<none>"), "action": kw.get("action", "") or "",
                         "nargs": kw.get("nargs", "") or ""})
     out.sort(key=lambda o: o["dest"])      # the order of declaration (and of --help) is not part of the tables
     return out
